@@ -20,12 +20,11 @@ from hypothesis import strategies as st
 from pbt import gen
 from pbt.core import Violation, claim
 from pbt.props import _chi_ref as ref
+from pbt.props._aberr_gen import ORDERS, SYMBOL_TO_ALIAS, coeff_cap, coeff_set  # shared with C22, C23, C05
 
 ATOL = 1e-4
 RTOL = 1e-5  # explicit (alpha, phi) samples
 RTOL_GRID = 2e-5  # alpha, phi computed by abTEM in float32 from the grid
-
-from pbt.props._aberr_gen import ORDERS, SYMBOL_TO_ALIAS, coeff_cap, coeff_set  # noqa: E402  (shared with C22, C23, C05)
 
 CLASSES = ["Aberrations", "CTF"]
 HOWS = ["dict", "kwargs", "set_aberrations", "attr", "dict+kwargs"]
